@@ -38,8 +38,31 @@ def gen(outfile, header_comment, imports, items):
         if os.path.exists(f): os.remove(f)
 
 
+def c02():
+    imports = ("Scalar Rops Sums Deriv Dual DualProofs Adjoint AdjointProofs Beam BeamTables BeamProofs BeamDeriv Aero AeroDeriv Mphys ComposeProofs Transfer TransferDeriv")
+    items = [
+        ("C02_forward_and_reverse_totals_coincide", "fwd_eq_rev", "for ANY solutions Phi of A Phi = -B and Psi of A^T Psi = C^T (any sizes; no inverse needed): D + C Phi = D - Psi^T B"),
+        ("C02_exact_linear_solves_are_unique", "solution_unique", "solver independence: whatever linear solver produced an exact solution, it is THE solution (left inverse suffices)"),
+        ("C02_forward_solve_is_derivative_of_converged_analysis", "implicit_linear_derivative", "if A(t) u(t) = b(t) for all t, then u' solves A u' = b' - A' u: what the forward mode computes for SolveMatrix and FEM"),
+        ("C02_SolveMatrix_partials", "solve_residual_DR", "the linearisation of the two implicit components (C01)"),
+        ("C02_FEM_partials", "fem_residual_DR", None),
+        ("C02_element_stiffness_symmetric", "permuted_local_stiff_symmetric", "symmetry of the stiffness matrix, from the GENERATED coefficient tables, through permutation, congruence and assembly"),
+        ("C02_congruence_preserves_symmetry", "transformed_symmetric", None),
+        ("C02_assembled_stiffness_symmetric", "K_aug_symmetric", None),
+        ("C02_FEM_reverse_solve_with_forward_factorisation_is_correct", "fem_rev_correct", "FEM.solve_linear re-uses the factorisation of K in reverse mode: correct because K is symmetric"),
+        ("C02_FEM_reverse_solve_would_be_wrong_without_symmetry", "fem_rev_refuted_if_unsym", "the dependence on symmetry is real: any edit that breaks the symmetry of K breaks the obligation above"),
+        ("C02_mux_then_demux", "demux_mux", "the matrix-free MPhys components: index maps are mutually inverse and adjoint"),
+        ("C02_demux_then_mux", "mux_demux", None),
+        ("C02_mux_demux_adjoint", "mux_adjoint", None),
+        ("C02_chain_of_components_example", "def_mesh_group_DR", "chain rule: a derivative theorem of C01 takes ARBITRARY differentiable input curves, so it applies to the outputs of upstream components; e.g. nodes -> transformation matrix -> deformed mesh"),
+    ]
+    gen("C02.v", "C02 - coupled total derivatives are correct and identical in forward and reverse mode.  Property theorems only (statements printed by Coq from Real/AdjointProofs.v, BeamProofs.v, ComposeProofs.v, *Deriv.v)", imports, items)
+
+
 if __name__ == "__main__":
     which = sys.argv[1]
+    if which == "C02":
+        c02(); sys.exit(0)
     if which == "C01":
         imports = ("Scalar Rops Sums Deriv Dual DualProofs Drag DragDeriv Stress StressDeriv StressProofs Transfer TransferDeriv Loads LoadsDeriv "
                    "Functionals FunctionalsDeriv Aero AeroDeriv PG PGDeriv Beam BeamTables BeamDeriv Geom GeomDeriv Misc MiscDeriv")
